@@ -133,15 +133,22 @@ def main():
     a, b, c = 2.0, 1.0, 1.5
     kinds_cycle = itertools.cycle(["elastic", "thermal", "phasefield", "hyperelastic", "elastic"])
 
-    for et in types2 + types3:
+    for ktype, et in enumerate(types2 + types3):
         dim = M.dim_of(et)
         order = {"TRI3": 1, "TRI6": 2, "TRI10": 3, "TRI15": 4, "QUAD4": 1, "QUAD8": 2, "QUAD9": 2, "TETRA4": 1, "TETRA10": 2,
                  "HEXA8": 1, "HEXA20": 2, "HEXA27": 2, "PRISM6": 1, "PRISM15": 2, "PRISM18": 2}[et]
         mesh = M.mesh_2d(et, a, b, 1.0) if dim == 2 else M.mesh_3d(et, a, b, c, 1.0, 2)
         Y = mesh.coord.copy()
         A, t = rand_affine(rng, dim)
+        if ktype % 2 == 1 and np.linalg.det(A[:dim, :dim]) > 0:
+            A[:, 0] *= -1            # every other element type on a mirrored image (negative Jacobian everywhere)
         M.affine(mesh, A, t)
         X = mesh.coord
+        try:
+            # an unrelated read that evaluates signed Jacobians (point probing) before the loads are integrated
+            mesh.Evaluate_dofsValues_at_coordinates(X[mesh.groupElem.connect[0]].mean(0)[None, :], X[:, 0].copy())
+        except Exception:  # noqa: BLE001
+            pass
         thickness = rng.choice([1.0, 0.5, 2.5]) if dim == 2 else 1.0
         kind = next(kinds_cycle)
         if kind == "hyperelastic" and dim == 2 and thickness != 1.0:
@@ -287,9 +294,9 @@ def main():
                          dict(elemType=et, sim=kind, A=A.tolist(), thickness=thickness))
 
     # ---------------- beams ----------------
-    for et in (["SEG2", "SEG3"] if not thorough else ["SEG2", "SEG3", "SEG4"]):
+    for et in ["SEG2", "SEG3", "SEG4", "SEG5"]:
         for timo in (False, True):
-            for bdim in (2, 3):
+            for bdim in ((2, 3) if thorough or et in ("SEG2", "SEG3") else (2 + (timo ^ (et == "SEG5")),)):
                 L = 4.0
                 sect = Mesher().Mesh_2D(Domain(Point(), Point(0.5, 0.25)))
                 d = np.array([rng.randint(1, 4), rng.randint(-3, 3), rng.randint(-3, 3) if bdim == 3 else 0], dtype=float)
